@@ -65,6 +65,15 @@ type morassObs struct {
 	delivered  bool // every full drain delivered exactly the pushed multiset
 	parent     string
 	residueErr string
+	cycles     []cycleObs
+}
+
+// cycleObs is what happened in one use cycle (for the per-cycle fault oracle).
+type cycleObs struct {
+	start, end int // simulator steps
+	err        bool
+	delivered  bool
+	drained    bool
 }
 
 func payloadFor(serial, n int) []byte {
@@ -132,187 +141,208 @@ func morassClient(sim *simrt.Sim, pl *MorassPlan, obs *morassObs) {
 	obs.delivered = true
 	serial := 0
 	stop := false
-cycles:
 	for ci, cy := range pl.Cycles {
-		remaining := map[mvalue]int{}
-		for i, k := range cy.Keys {
-			serial++
-			var e morass.LessInterface
-			if pl.Struct {
-				e = recKey{Key: k, Serial: serial, Payload: payloadFor(serial, pl.Payload)}
-				remaining[mvalue{k, serial}]++
-			} else {
-				e = intKey(k)
-				remaining[mvalue{k, 0}]++
-			}
-			if ioErr("Push", m.Push(e)) {
-				stop = true
-				break cycles
-			}
-			if pl.Concurrent && sim.AliveAt(morassWriterSite) >= 2 {
-				sim.Probe("two_writers_active_during_push")
-			}
-			if got := m.Len(); got != int64(i+1) {
-				fail("morass-len@push", "cycle %d: Len() = %d after %d pushes", ci, got, i+1)
-			}
-			if got := m.Pos(); got != int64(i+1) {
-				fail("morass-pos@push", "cycle %d: Pos() = %d after %d pushes", ci, got, i+1)
-			}
-		}
-		n := len(cy.Keys)
-		if pl.Concurrent {
-			switch alive := sim.AliveAt(morassWriterSite); {
-			case alive >= 2:
-				sim.Probe("finalise_entered_with_2_writers_in_flight")
-			case alive == 1:
-				sim.Probe("finalise_entered_with_writer_in_flight")
-			}
-		}
-		if ci > 0 {
-			prev := pl.Cycles[ci-1]
-			pn := len(prev.Keys)
-			switch {
-			case pn < pl.Chunk && n >= pl.Chunk:
-				sim.Probe("in_memory_cycle_then_spilling_cycle")
-			case pn >= pl.Chunk && n < pl.Chunk:
-				sim.Probe("spilling_cycle_then_in_memory_cycle")
-			}
-			if prev.Drain >= 0 && prev.Drain < pn {
-				sim.Probe("partial_drain_then_clear")
-			}
-		}
-		sim.Mark("finalise-enter")
-		if ioErr("Finalise", m.Finalise()) {
-			stop = true
-			break
-		}
-		sim.Mark("finalised")
-		if got := m.Len(); got != int64(n) {
-			fail("morass-len@finalise", "cycle %d: Len() = %d after Finalise of %d values", ci, got, n)
-		}
-		if got := m.Pos(); got != 0 {
-			fail("morass-pos@finalise", "cycle %d: Pos() = %d after Finalise", ci, got)
-		}
-		want := cy.Drain
-		if want < 0 || want > n {
-			want = n
-		}
-		lastKey, have := 0, false
-		for k := 0; k < want; k++ {
-			var key, ser int
-			var perr error
-			var pay []byte
-			if pl.Struct {
-				var v recKey
-				perr = m.Pull(&v)
-				key, ser, pay = v.Key, v.Serial, v.Payload
-			} else {
-				var v intKey
-				perr = m.Pull(&v)
-				key = int(v)
-			}
-			if perr == io.EOF {
-				if pl.Tolerant && obs.sawError != nil {
-					stop = true
-					break cycles
+		ci, cy := ci, cy
+		obs.cycles = append(obs.cycles, cycleObs{start: sim.Steps(), delivered: true})
+		errored := func() bool {
+			co := &obs.cycles[ci]
+			remaining := map[mvalue]int{}
+			for i, k := range cy.Keys {
+				serial++
+				var e morass.LessInterface
+				if pl.Struct {
+					e = recKey{Key: k, Serial: serial, Payload: payloadFor(serial, pl.Payload)}
+					remaining[mvalue{k, serial}]++
+				} else {
+					e = intKey(k)
+					remaining[mvalue{k, 0}]++
 				}
-				obs.delivered = false
-				if pl.Tolerant {
-					// judged by the fault oracle: success reported throughout?
-					stop = true
-					break cycles
+				if ioErr("Push", m.Push(e)) {
+					return true
 				}
-				fail("morass-lost", "cycle %d (chunk %d, concurrent %v): io.EOF after %d of %d pushed values; missing %s", ci, pl.Chunk, pl.Concurrent, k, n, describeRemaining(remaining))
-			}
-			if ioErr("Pull", perr) {
-				stop = true
-				break cycles
-			}
-			if have && key < lastKey {
-				obs.delivered = false
-				if !pl.Tolerant {
-					fail("morass-order", "cycle %d: pulled key %d after %d", ci, key, lastKey)
+				if pl.Concurrent && sim.AliveAt(morassWriterSite) >= 2 {
+					sim.Probe("two_writers_active_during_push")
+				}
+				if got := m.Len(); got != int64(i+1) {
+					fail("morass-len@push", "cycle %d: Len() = %d after %d pushes", ci, got, i+1)
+				}
+				if got := m.Pos(); got != int64(i+1) {
+					fail("morass-pos@push", "cycle %d: Pos() = %d after %d pushes", ci, got, i+1)
 				}
 			}
-			lastKey, have = key, true
-			mv := mvalue{key, ser}
-			if remaining[mv] == 0 {
-				obs.delivered = false
-				if !pl.Tolerant {
-					fail("morass-foreign", "cycle %d: pulled value (key %d, serial %d) which was not pushed in this cycle or was already delivered", ci, key, ser)
-				}
-			} else {
-				remaining[mv]--
-				if remaining[mv] == 0 {
-					delete(remaining, mv)
+			n := len(cy.Keys)
+			if pl.Concurrent {
+				switch alive := sim.AliveAt(morassWriterSite); {
+				case alive >= 2:
+					sim.Probe("finalise_entered_with_2_writers_in_flight")
+				case alive == 1:
+					sim.Probe("finalise_entered_with_writer_in_flight")
 				}
 			}
-			if pl.Struct && !sameBytes(pay, payloadFor(ser, pl.Payload)) {
-				obs.delivered = false
-				if !pl.Tolerant {
-					fail("morass-corrupt", "cycle %d: payload of serial %d corrupted", ci, ser)
+			if ci > 0 {
+				prev := pl.Cycles[ci-1]
+				pn := len(prev.Keys)
+				switch {
+				case pn < pl.Chunk && n >= pl.Chunk:
+					sim.Probe("in_memory_cycle_then_spilling_cycle")
+				case pn >= pl.Chunk && n < pl.Chunk:
+					sim.Probe("spilling_cycle_then_in_memory_cycle")
+				}
+				if prev.Drain >= 0 && prev.Drain < pn {
+					sim.Probe("partial_drain_then_clear")
 				}
 			}
-			if !pl.Tolerant {
-				if got := m.Pos(); got != int64(k+1) {
-					fail("morass-pos@pull", "cycle %d: Pos() = %d after %d pulls", ci, got, k+1)
-				}
-				if got := m.Len(); got != int64(n) {
-					fail("morass-len@pull", "cycle %d: Len() = %d while pulling %d values", ci, got, n)
-				}
+			sim.Mark("finalise-enter")
+			if ioErr("Finalise", m.Finalise()) {
+				return true
 			}
-		}
-		if cy.Drain < 0 {
-			// exhaustion must be reported as io.EOF
-			var perr error
-			if pl.Struct {
-				var v recKey
-				perr = m.Pull(&v)
-			} else {
-				var v intKey
-				perr = m.Pull(&v)
+			sim.Mark("finalised")
+			if got := m.Len(); got != int64(n) {
+				fail("morass-len@finalise", "cycle %d: Len() = %d after Finalise of %d values", ci, got, n)
 			}
-			if perr == nil {
-				obs.delivered = false
-				if !pl.Tolerant {
-					fail("morass-extra", "cycle %d: Pull delivered a value after all %d pushed values had been pulled", ci, n)
+			if got := m.Pos(); got != 0 {
+				fail("morass-pos@finalise", "cycle %d: Pos() = %d after Finalise", ci, got)
+			}
+			want := cy.Drain
+			if want < 0 || want > n {
+				want = n
+			}
+			lastKey, have := 0, false
+			earlyEOF := false
+			for k := 0; k < want; k++ {
+				var key, ser int
+				var perr error
+				var pay []byte
+				if pl.Struct {
+					var v recKey
+					perr = m.Pull(&v)
+					key, ser, pay = v.Key, v.Serial, v.Payload
+				} else {
+					var v intKey
+					perr = m.Pull(&v)
+					key = int(v)
 				}
-			} else if perr != io.EOF {
+				if perr == io.EOF {
+					obs.delivered = false
+					co.delivered = false
+					if pl.Tolerant {
+						// judged by the fault oracle: success reported throughout?
+						earlyEOF = true
+						break
+					}
+					fail("morass-lost", "cycle %d (chunk %d, concurrent %v): io.EOF after %d of %d pushed values; missing %s", ci, pl.Chunk, pl.Concurrent, k, n, describeRemaining(remaining))
+				}
 				if ioErr("Pull", perr) {
-					stop = true
-					break cycles
+					return true
 				}
-			}
-			if len(remaining) != 0 {
-				obs.delivered = false
-			}
-			sim.Mark("drained")
-			// residue after a full drain
-			if !pl.Tolerant {
-				if pl.AutoClean {
-					if d := sorterDirs(obs.parent); len(d) != 0 {
-						obs.residueErr = fmt.Sprintf("AutoClean set but the temporary directory still exists after the drain (cycle %d): %v", ci, d)
-						fail("morass-residue@autoclean", "%s", obs.residueErr)
-					}
-				} else if pl.AutoClear {
-					if f := sorterFiles(obs.parent); len(f) != 0 {
-						obs.residueErr = fmt.Sprintf("AutoClear set but run files remain after the drain (cycle %d): %v", ci, f)
-						fail("morass-residue@autoclear", "%s", obs.residueErr)
+				if have && key < lastKey {
+					obs.delivered = false
+					co.delivered = false
+					if !pl.Tolerant {
+						fail("morass-order", "cycle %d: pulled key %d after %d", ci, key, lastKey)
 					}
 				}
+				lastKey, have = key, true
+				mv := mvalue{key, ser}
+				if remaining[mv] == 0 {
+					obs.delivered = false
+					co.delivered = false
+					if !pl.Tolerant {
+						fail("morass-foreign", "cycle %d: pulled value (key %d, serial %d) which was not pushed in this cycle or was already delivered", ci, key, ser)
+					}
+				} else {
+					remaining[mv]--
+					if remaining[mv] == 0 {
+						delete(remaining, mv)
+					}
+				}
+				if pl.Struct && !sameBytes(pay, payloadFor(ser, pl.Payload)) {
+					obs.delivered = false
+					co.delivered = false
+					if !pl.Tolerant {
+						fail("morass-corrupt", "cycle %d: payload of serial %d corrupted", ci, ser)
+					}
+				}
+				if !pl.Tolerant {
+					if got := m.Pos(); got != int64(k+1) {
+						fail("morass-pos@pull", "cycle %d: Pos() = %d after %d pulls", ci, got, k+1)
+					}
+					if got := m.Len(); got != int64(n) {
+						fail("morass-len@pull", "cycle %d: Len() = %d while pulling %d values", ci, got, n)
+					}
+				}
 			}
-		}
-		last := ci == len(pl.Cycles)-1
-		if !last || cy.ExtraClear {
-			if ioErr("Clear", m.Clear()) {
+			if cy.Drain < 0 && !earlyEOF {
+				// exhaustion must be reported as io.EOF
+				var perr error
+				if pl.Struct {
+					var v recKey
+					perr = m.Pull(&v)
+				} else {
+					var v intKey
+					perr = m.Pull(&v)
+				}
+				if perr == nil {
+					obs.delivered = false
+					co.delivered = false
+					if !pl.Tolerant {
+						fail("morass-extra", "cycle %d: Pull delivered a value after all %d pushed values had been pulled", ci, n)
+					}
+				} else if perr != io.EOF {
+					if ioErr("Pull", perr) {
+						return true
+					}
+				}
+				if len(remaining) != 0 {
+					obs.delivered = false
+					co.delivered = false
+				}
+				co.drained = true
+				sim.Mark("drained")
+				// residue after a full drain (also in histories that saw faults)
+				if co.delivered {
+					if pl.AutoClean {
+						if d := sorterDirs(obs.parent); len(d) != 0 {
+							obs.residueErr = fmt.Sprintf("AutoClean set but the temporary directory still exists after the drain (cycle %d): %v", ci, d)
+							fail("morass-residue@autoclean", "%s", obs.residueErr)
+						}
+					} else if pl.AutoClear {
+						if f := sorterFiles(obs.parent); len(f) != 0 {
+							obs.residueErr = fmt.Sprintf("AutoClear set but run files remain after the drain (cycle %d): %v", ci, f)
+							fail("morass-residue@autoclear", "%s", obs.residueErr)
+						}
+					}
+				}
+			}
+			last := ci == len(pl.Cycles)-1
+			if !last || cy.ExtraClear {
+				if ioErr("Clear", m.Clear()) {
+					return true
+				}
+				if !pl.Tolerant {
+					if m.Len() != 0 || m.Pos() != 0 {
+						fail("morass-len@clear", "cycle %d: Len() = %d, Pos() = %d after Clear", ci, m.Len(), m.Pos())
+					}
+				}
+			}
+			return false
+		}()
+		obs.cycles[ci].end = sim.Steps()
+		if errored {
+			obs.cycles[ci].err = true
+			// Recovery: Clear resets the sorter (and its error) for another
+			// cycle. Only in sequential mode, where no writer can still be
+			// running when a call has returned an error.
+			if pl.Concurrent || ci == len(pl.Cycles)-1 {
 				stop = true
 				break
 			}
-			if !pl.Tolerant {
-				if m.Len() != 0 || m.Pos() != 0 {
-					fail("morass-len@clear", "cycle %d: Len() = %d, Pos() = %d after Clear", ci, m.Len(), m.Pos())
-				}
+			sim.Probe("recovered_with_clear_after_error")
+			if m.Clear() != nil {
+				stop = true
+				break
 			}
+			obs.cycles[ci].end = sim.Steps()
 		}
 	}
 	_ = stop
@@ -410,22 +440,36 @@ func runMorass(t *testing.T, c *Case, o RunOpts) *Result {
 // must have delivered exactly what was pushed.
 func faultOracle(sim *simrt.Sim, pl *MorassPlan, obs *morassObs) {
 	listed := map[string]bool{"tempdir": true, "tempfile": true, "encode": true, "sync": true, "seek": true, "decode": true}
-	var fired *simrt.IORecord
-	for i := range sim.Fired {
-		if listed[sim.Fired[i].Kind] {
-			fired = &sim.Fired[i]
-			break
+	if len(obs.cycles) == 0 {
+		// New failed (or nothing ran): the failure must have been reported
+		for i := range sim.Fired {
+			if listed[sim.Fired[i].Kind] && obs.sawError == nil {
+				f := sim.Fired[i]
+				sim.Fail("oracle", "morass-hidden-fault@"+f.Kind, fmt.Sprintf("an injected %s failure at %s was never reported", f.Kind, f.Site))
+			}
 		}
-	}
-	if obs.sawError == nil && !obs.delivered && obs.parent != "" {
-		what := "no fault fired"
-		if fired != nil {
-			what = fmt.Sprintf("after an injected %s failure at %s", fired.Kind, fired.Site)
-		}
-		sim.Fail("oracle", "morass-silent-loss", "every call reported success but the values delivered differ from the values pushed ("+what+")")
 		return
 	}
-	if fired != nil && obs.sawError == nil {
-		sim.Fail("oracle", "morass-hidden-fault@"+fired.Kind, fmt.Sprintf("an injected %s failure at %s (I/O #%d, step %d) was never reported by any later Push, Finalise or Pull", fired.Kind, fired.Site, fired.Ordinal, fired.Step))
+	for ci, co := range obs.cycles {
+		var fired *simrt.IORecord
+		for i := range sim.Fired {
+			f := &sim.Fired[i]
+			if listed[f.Kind] && f.Step >= co.start && (f.Step <= co.end || ci == len(obs.cycles)-1) {
+				fired = f
+				break
+			}
+		}
+		if !co.err && !co.delivered {
+			what := "no fault fired in this cycle"
+			if fired != nil {
+				what = fmt.Sprintf("after an injected %s failure at %s", fired.Kind, fired.Site)
+			}
+			sim.Fail("oracle", "morass-silent-loss", fmt.Sprintf("cycle %d: every call reported success but the values delivered differ from the values pushed (%s)", ci, what))
+			return
+		}
+		if fired != nil && !co.err {
+			sim.Fail("oracle", "morass-hidden-fault@"+fired.Kind, fmt.Sprintf("cycle %d: an injected %s failure at %s (I/O #%d, step %d) was never reported by any later Push, Finalise or Pull of the cycle", ci, fired.Kind, fired.Site, fired.Ordinal, fired.Step))
+			return
+		}
 	}
 }
